@@ -371,6 +371,83 @@ func genC03(c *Ctx) {
 	}
 	genC03rolling(c, 100000)
 	genC03lateWriter(c)
+	genC03flushBusyWriter(c)
+}
+
+// A Tflush waits on an executing request while the writer goroutine is busy with a client that reads
+// slowly. When the request is answered its reply goes out before the Rflush: once the Rflush is
+// on the wire the tag has no outstanding request, and no reply may follow for it.
+func genC03flushBusyWriter(c *Ctx) {
+	for k := 0; k < c.scale(25, 700) && !c.stop(); k++ {
+		i := 400000 + k
+		r := c.rng(i)
+		maxpend := []int{0, 0, 1, 2}[r.Intn(4)]
+		rounds := 2 + r.Intn(5)
+		line := fmt.Sprintf("lifejudge C03 flush-busy-writer seed=%d maxpend=%d rounds=%d", i, maxpend, rounds)
+		c.begin(line)
+		s := newLifeSess(8192, maxpend, false)
+		if !s.setup(2) {
+			c.oracleFail("C03/setup", "session set-up failed", line)
+			s.end()
+			continue
+		}
+		for round := 0; round < rounds; round++ {
+			base := s.nreqs()
+			f0 := s.nframes()
+			// the client stops reading; enough answers to leave the writer inside Write and its queue full
+			atomic.StoreInt32(&s.paused, 1)
+			time.Sleep(200 * time.Microsecond)
+			nx := maxpend + 2
+			var fr [][]byte
+			var xr []int
+			for j := 0; j < nx; j++ {
+				fr = append(fr, s.send(uint16(30+j), func(fc *g.Fcall) error { return g.PackTstat(fc, 0) }))
+				xr = append(xr, base+j)
+			}
+			s.write(fr...)
+			s.waitEntered(xr, f0, 2*time.Second)
+			time.Sleep(time.Duration(200+r.Intn(500)) * time.Microsecond)
+			a := base + nx
+			s.mu.Lock()
+			s.plans[a] = plan{gate: true, answers: 1, async: r.Intn(3) == 0}
+			s.plans[a+2] = plan{gate: true, answers: 1}
+			s.mu.Unlock()
+			s.write(s.send(11, func(fc *g.Fcall) error { return g.PackTstat(fc, 1) }))
+			s.waitEntered([]int{a}, f0, 2*time.Second)
+			// the Tflush, then a request that tells when the receive loop is past the Tflush
+			s.write(s.send(12, func(fc *g.Fcall) error { return g.PackTflush(fc, 11) }),
+				s.send(13, func(fc *g.Fcall) error { return g.PackTstat(fc, 2) }))
+			s.waitEntered([]int{a + 2}, f0, 2*time.Second)
+			s.release(a)
+			time.Sleep(time.Duration(300+r.Intn(1200)) * time.Microsecond)
+			atomic.StoreInt32(&s.paused, 0)
+			s.release(a + 2)
+			s.waitFrames(f0+nx+3, 5*time.Second)
+			s.quiet(2 * time.Millisecond)
+			s.mu.Lock()
+			ia, ifl := -1, -1
+			for j := f0; j < len(s.fr); j++ {
+				if s.fr[j].tag == 11 && ia < 0 {
+					ia = j
+				}
+				if s.fr[j].tag == 12 && ifl < 0 {
+					ifl = j
+				}
+			}
+			s.mu.Unlock()
+			if ifl >= 0 && ia > ifl {
+				c.oracleFail("C03/reply-after-rflush", fmt.Sprintf("round %d: the reply to the flushed request (tag 11) is frame %d, after the Rflush (frame %d): a reply for a tag with no outstanding request", round, ia-f0, ifl-f0), line)
+			}
+			if !replyOracle(c, s, "C03", line, base, base+nx+3, f0, nil) {
+				break
+			}
+		}
+		c.count("flush-busy-writer")
+		time.Sleep(time.Millisecond)
+		s.emitLog(c)
+		s.end()
+		c.emit(line, "*", true)
+	}
 }
 
 // A request cancelled by Tflush (FlushOp honoured) whose worker keeps going and fills its reply buffer
